@@ -42,6 +42,8 @@ Seeds that were MISSED at first, and what was strengthened (all are caught now; 
   the normalization AST): hand projects + a biased generator stream with an injection step.
 * C15-2 (shallow merge into an existing inline fragment): injection stream with the same refinement reached
   directly and through client fields, overlapping linked field with different sub-selections.
+* C25-1 (refetch index looked up by path SUFFIX) and C09-1 (variables nested two levels deep in object arguments
+  not collected): witness projects + injection streams (`suffix`, `nested`) with floors.
 * C24-2 (`WhitespaceCharacter` lost the tab): the whitespace union is now regenerated from the source
   (`C24_whitespace_set`) and read from the implementation's `iso.ts` by the oracle.
 
